@@ -126,6 +126,19 @@ def run(R):
         c = it.calls(pat='TlsConnector::new')
         if len(c) != 1:
             raise CheckError('ANCHOR-MISSING: TlsConnector::new call in into_tls_connector')
+        # .. and that call is where every connector handed out comes from: each Ok(..) return of into_tls_connector is dominated by it
+        # (a connector kept from an earlier call - a cache shared by the clones of one ClientTlsConfig - carries the host name of
+        # the *first* endpoint, so a second endpoint's certificate is checked against the wrong name)
+        bad_early = []
+        for wb_ in writers_of(it, 0):
+            if it.dominates(c[0][0], wb_) or wb_ == c[0][0]:
+                continue
+            t_ = it.term(wb_)
+            is_err = (t_['k'] == 'call' and t_.get('name') == 'from_residual' and t_['dest']['l'] == 0) or any(w_[0] == 'variant' and w_[2] == 'Err' for w_ in block_writes(it, wb_, 0))
+            if not is_err:
+                bad_early.append(wb_)
+        R.check(not bad_early, 'C15.R3', 'connector-built-for-this-uri', site(it, bad_early[0]) if bad_early else site(it, c[0][0]),
+                'every connector returned by into_tls_connector is built by TlsConnector::new in this call (returns that do not pass through it: %d)' % len(bad_early))
         # which argument is the verified name: the one fed by self.domain / uri.host()
         dom_i = [i_ for i_, a_ in enumerate(c[0][1]['args']) if mentions_field(it.origin(a_), 'domain') or term_contains(it.origin(a_), lambda x: is_call(x, name='host'))]
         if len(dom_i) != 1:
